@@ -68,8 +68,27 @@ def _ctx_case(rows, be, kind, stream, sels=None, rng=None):
     return dict(stream=stream, k='ctx', be=be, rows=rows, objs=objs, attrs=attrs, so=so, sa=sa)
 
 
+def _history_cases(rng, tier):
+    # multi-step histories on one context object: use it, rename it through the setters, use it again
+    tables = list(G.tables_upto(2, 2)) + [[[1, 0, 1], [1, 1, 0]], [[1, 0], [0, 1], [1, 1]], [[1, 1, 0], [0, 1, 1], [1, 0, 1]]]
+    for _ in range(6 if tier == 'quick' else 40):
+        tables.append(G.random_table(rng, 4, 4))
+    for rows in tables:
+        n, m = len(rows), len(rows[0])
+        for be in BACKENDS:
+            for pre in (['T'], ['CbO'], ['default'], ['not'], ['T', 'CbO']):
+                objs2 = ['r%d' % i for i in range(n)]
+                attrs2 = ['z%d' % j for j in range(m)]
+                yield dict(stream='history', k='ctx', be=be, rows=rows, objs0=OBJ[:n], attrs0=ATT[:m], pre=pre,
+                           objs=objs2, attrs=attrs2, so=[[], list(range(n))[:1]], sa=[[], list(range(m))[:1]])
+                # permuting the existing names is a renaming too
+                yield dict(stream='history', k='ctx', be=be, rows=rows, objs0=OBJ[:n], attrs0=ATT[:m], pre=pre,
+                           objs=OBJ[:n][::-1], attrs=ATT[:m][::-1], so=[list(range(n))], sa=[list(range(m))])
+
+
 def gen(tier, seed, boost=False):
     rng = random.Random(seed * 1000003 + 606)
+    yield from _history_cases(random.Random(seed * 7919 + 66), tier)
     # ---- corpus (hand-picked structured tables and minimised past failures) ---------------------------
     cdir = os.path.join(os.path.dirname(os.path.dirname(os.path.dirname(os.path.abspath(__file__)))), 'corpus', 'C06')
     if os.path.isdir(cdir):
@@ -175,7 +194,21 @@ def impl(c):
     from fcapy.lattice import ConceptLattice
     rows, be = c['rows'], c['be']
     if c['k'] == 'ctx':
-        K = _mk(rows, be, c['objs'], c['attrs'])
+        if c.get('pre'):
+            # history stream: the context is used (transposed / mined) under its first names, then renamed through
+            # the public setters; everything derived afterwards must reflect the current names
+            K = _mk(rows, be, c['objs0'], c['attrs0'])
+            for step in c['pre']:
+                if step == 'T':
+                    _try(lambda: K.T.T)
+                elif step == 'not':
+                    _try(lambda: ~K)
+                else:
+                    _try(lambda: ConceptLattice.from_context(K, algo=None if step == 'default' else step))
+            K.object_names = list(c['objs'])
+            K.attribute_names = list(c['attrs'])
+        else:
+            K = _mk(rows, be, c['objs'], c['attrs'])
         out = {}
         out['T'] = _try(lambda: _jctx(K.T))
         out['TT'] = _try(lambda: _jctx(K.T.T))
@@ -459,6 +492,8 @@ def shrink(c):
     if n > 1:
         for i in range(n):
             d = dict(c, rows=rows[:i] + rows[i + 1:], objs=c['objs'][:i] + c['objs'][i + 1:])
+            if 'objs0' in c:
+                d['objs0'] = c['objs0'][:i] + c['objs0'][i + 1:]
             if 'pi' in c:
                 d['pi'] = drop(c['pi'], i)
             if 'so' in c:
@@ -467,6 +502,8 @@ def shrink(c):
     if m > 1:
         for j in range(m):
             d = dict(c, rows=[r[:j] + r[j + 1:] for r in rows], attrs=c['attrs'][:j] + c['attrs'][j + 1:])
+            if 'attrs0' in c:
+                d['attrs0'] = c['attrs0'][:j] + c['attrs0'][j + 1:]
             if 'sigma' in c:
                 d['sigma'] = drop(c['sigma'], j)
             if 'sa' in c:
